@@ -156,6 +156,15 @@ func (diff *FileDiff) Consume(deps map[string]interface{}) (map[string]interface
 			dmp := diffmatchpatch.New()
 			dmp.DiffTimeout = diff.Timeout
 			src, dst, _ := dmp.DiffLinesToRunes(stripWhitespace(strFrom, diff.WhitespaceIgnore), stripWhitespace(strTo, diff.WhitespaceIgnore))
+			// diffmatchpatch converts the runes to strings internally, which replaces the UTF-16
+			// surrogate code points with U+FFFD: keep the line identifiers out of that range
+			for _, runes := range [][]rune{src, dst} {
+				for i, r := range runes {
+					if r >= 0xD800 {
+						runes[i] = r + 0x800
+					}
+				}
+			}
 			diffs := dmp.DiffMainRunes(src, dst, false)
 			if !diff.CleanupDisabled {
 				diffs = dmp.DiffCleanupMerge(dmp.DiffCleanupSemanticLossless(diffs))
